@@ -189,12 +189,12 @@ def run_case(case):
             split = False
             # (a) factorize_rule, without and with labels
             rule_explicit = rule
-            for with_labels, idmode in ((False, 'explicit'), (True, 'explicit'), (False, 'mixed')):
-                ctx = 'factorize_rule' + ('/mixed-ids' if idmode == 'mixed' else '')
+            for with_labels, idmode in ((False, 'explicit'), (True, 'explicit'), (False, 'mixed'), ('empty', 'explicit')):
+                ctx = 'factorize_rule' + ('/mixed-ids' if idmode == 'mixed' else '') + ('/labels=set()' if with_labels == 'empty' else '')
                 rule = rule_explicit if idmode == 'explicit' else build_rule(sh, ntmask, 'mixed')
                 orig_labels = {rule.lhs} | set(rule.rhs.edge_labels())
                 extra = fggs.EdgeLabel('X_5', [], is_nonterminal=True)
-                labels = set(orig_labels) | {extra} if with_labels else None
+                labels = (set() if with_labels == 'empty' else set(orig_labels) | {extra}) if with_labels else None
                 try:
                     with Spy() as spy:
                         new = F.factorize_rule(rule, method=m, labels=labels) if with_labels else F.factorize_rule(rule, method=m)
@@ -206,14 +206,15 @@ def run_case(case):
                     r.bad('method-ignored', 'factorize.factorize_rule', ctx, 'asked %s, tree_decomposition got %r' % (m, spy.seen), (sh,), key)
                     okall = False
                     break
-                ol = set(orig_labels) | ({extra} if with_labels else set())
+                ol = set(orig_labels) | ({extra} if with_labels is True else set())
                 if not (check_rules(new, [rule], ol, r, ctx, (sh,), key) and width_ok(new, n_nodes, r, ctx, (sh,), key)):
                     okall = False
                     break
                 if with_labels:
                     fresh = {nr.lhs for nr in new} - ol
-                    if labels != ol | fresh:
-                        r.bad('labels-argument', 'factorize.factorize_rule', ctx, 'labels after call %r, expected originals + fresh %r' % (sorted(l.name for l in labels), sorted(l.name for l in ol | fresh)), (sh,), key)
+                    expect = (ol if with_labels is True else {rule.lhs} | set(rule.rhs.nonterminals())) | fresh
+                    if labels != expect:
+                        r.bad('labels-argument', 'factorize.factorize_rule', ctx, 'labels after call %r, expected originals + fresh %r' % (sorted(l.name for l in labels), sorted(l.name for l in expect)), (sh,), key)
                         okall = False
                         break
                 split = split or len(new) > 1
